@@ -66,7 +66,7 @@ class C12(F.Spec):
             if rng.random() < .7:
                 cmd = rng.choice([9000, 9000, 8000, 8000, 8000, 0, 1, 7999, 8001, 8999, 9001, 5000, 6000, 6100, -1])
                 auth = rng.choice([0, 0, 1, 1, 2, 255])
-                ch = rng.choice([0, 0, 1, 2, 3, 4, 7, 8, 255, -1])
+                ch = rng.choice([0, 0, 1, 2, 3, 4, 7, 8, 255, -1, 256, 257, 258, 512, -256, 65536, 16777216])   # (the field is 32 bits wide)
                 dt = rng.choice([0, 0, 1000, 1000, 1, 999])
                 data = bytes(rng.getrandbits(8) for _ in range(rng.choice([0, 0, 8, 8, 4, 16])))
                 if dt == 1000 and len(data) == 8 and rng.random() < .7:
@@ -75,7 +75,7 @@ class C12(F.Spec):
                     # a complete, well-formed recalibrate / enter-cfg request: only the authorisation flag decides
                     cmd = rng.choice([8000, 8000, 9000])
                     dt, data = 1000, struct.pack("<ii", rng.choice([0, 2000, 6000]), rng.choice([0, 2000, 6000]))
-                    ch = rng.choice([0, 0, 1, 2])
+                    ch = rng.choice([0, 0, 1, 2, 256, 257, 258, -256, 65536])
                     auth = rng.choice([0, 0, 0, 1, 2, 255])
                 if board.startswith("rs"):
                     # every request meets calibrated shutters without a task, so that a recalibration is always visible
